@@ -402,8 +402,92 @@ fn check_callsites() -> Value {
     json!({"n": n, "nontrivial": n, "hist": hist, "bad": bads})
 }
 
+/// Deep call chains: a recursion of `depth` activations (through one SUB, or alternating between a SUB and a FUNCTION)
+/// fails at the bottom: the list of rows is the failing statement, then every call site innermost first, then the
+/// call in the main module.
+fn check_deep(quick: bool) -> Value {
+    let mut hist: BTreeMap<String, u64> = BTreeMap::new();
+    let mut bads = vec![];
+    let mut n = 0u64;
+    let depths: &[usize] = if quick { &[1, 2, 9, 10, 11, 63, 64, 65, 99, 100, 101, 127, 128, 129, 255, 256, 257, 300] } else { &[1, 2, 9, 10, 11, 31, 32, 33, 63, 64, 65, 99, 100, 101, 127, 128, 129, 199, 200, 201, 255, 256, 257, 300, 511, 512, 513, 1000] };
+    for &depth in depths {
+        for shape in 0..2 {
+            for (eol, ename) in [("\n", "LF"), ("\r\n", "CR LF")] {
+                // rows: 1 DECLARE.. ; the main call is on row 4
+                let (lines, fail_row, sites): (Vec<String>, u32, Vec<u32>) = if shape == 0 {
+                    (
+                        vec![
+                            "DECLARE SUB Down (N%)".into(), "PRINT \"start\"".into(), "Z% = 0".into(), format!("Down {}", depth - 1), "PRINT \"not reached\"".into(), "SUB Down (N%)".into(), "  IF N% = 0 THEN".into(), "    X% = 1 / Z%".into(), "  END IF".into(),
+                            "  Down N% - 1".into(), "END SUB".into(),
+                        ],
+                        8,
+                        std::iter::repeat(10u32).take(depth - 1).chain(std::iter::once(4)).collect(),
+                    )
+                } else {
+                    // SUB Down calls FUNCTION Hop%, which calls Down: two activations per round
+                    let mut sites = vec![];
+                    // activations from the innermost outwards: Down(0) fails; it was called by Hop% (row 16) or by main
+                    let mut k = 0;
+                    while k + 1 < depth {
+                        sites.push(if k % 2 == 0 { 16u32 } else { 11 });
+                        k += 1;
+                    }
+                    sites.push(4);
+                    (
+                        vec![
+                            "DECLARE SUB Down (N%)".into(), "DECLARE FUNCTION Hop% (N%)".into(), "PRINT \"start\"".into(), format!("Down {}", depth - 1), "PRINT \"not reached\"".into(), "SUB Down (N%)".into(), "  IF N% = 0 THEN".into(), "    X% = 1 / Z%".into(),
+                            "  END IF".into(), "  ' the FUNCTION is an operand".into(), "  Y% = 1 + Hop%(N% - 1)".into(), "END SUB".into(), "FUNCTION Hop% (N%)".into(), "  IF N% < 0 THEN EXIT FUNCTION".into(), "  ' a SUB call".into(), "  Down N%".into(), "  Hop% = 1".into(),
+                            "END FUNCTION".into(),
+                        ],
+                        8,
+                        sites,
+                    )
+                };
+                // in shape 1 the chain alternates Down -> Hop% -> Down: Down(N) calls Hop%(N-1) calls Down(N-1): the depth counts activations
+                let text = lines.join(eol) + eol;
+                let text = if shape == 1 { text.replacen(&format!("Down {}", depth - 1), &format!("Down {}", (depth - 1) / 2), 1) } else { text };
+                let o = run_pipeline(&text, &RunOpts { budget: 5_000_000, ..RunOpts::default() });
+                n += 1;
+                let want: Vec<u32> = if shape == 1 {
+                    // Down(k) is reached after 2k + 1 activations counted from the main call
+                    let rounds = (depth - 1) / 2;
+                    let mut v = vec![fail_row];
+                    for _ in 0..rounds {
+                        v.push(16);
+                        v.push(11);
+                    }
+                    v.push(4);
+                    v
+                } else {
+                    std::iter::once(fail_row).chain(sites.iter().copied()).collect()
+                };
+                let ok = match &o.end {
+                    End::RuntimeError { code: Some(11), rows, .. } => *rows == want,
+                    _ => false,
+                };
+                if ok {
+                    *hist.entry("deep chain listed completely".into()).or_insert(0) += 1;
+                } else {
+                    *hist.entry("differ".into()).or_insert(0) += 1;
+                    if bads.len() < 20 {
+                        let got = match &o.end {
+                            End::RuntimeError { rows, code, .. } => format!("error {:?}, {} rows, first {:?}, last {:?}", code, rows.len(), rows.iter().take(4).collect::<Vec<_>>(), rows.iter().rev().take(3).collect::<Vec<_>>()),
+                            other => other.class(),
+                        };
+                        bads.push(json!({"sig": format!("C11|deep|{}", if shape == 0 { "one SUB" } else { "SUB and FUNCTION alternating" }), "summary": format!("a division by zero {} activations deep ({} line ends): expected {} rows ending in the main module's call on row 4, got {} — program: {:?}", want.len() - 1, ename, want.len(), got, super::truncate_text(&text, 500)), "text": text, "case": {"deep": true, "quick": quick}}));
+                    }
+                }
+            }
+        }
+    }
+    json!({"n": n, "nontrivial": n, "hist": hist, "bad": bads})
+}
+
 pub fn worker(case: &Value) -> Value {
     let quick = case["quick"].as_bool().unwrap_or(true);
+    if case["deep"].as_bool() == Some(true) {
+        return check_deep(quick);
+    }
     if case["callsites"].as_bool() == Some(true) {
         return check_callsites();
     }
@@ -517,6 +601,7 @@ pub fn drive(tier: &str) -> i32 {
         cases.push(json!({"quick": quick, "unterminated": variant_of(k, quick)}));
     }
     cases.push(json!({"quick": quick, "callsites": true}));
+    cases.push(json!({"quick": quick, "deep": true}));
     // far away: the fault beyond row 65 535 / beyond column 255 and 65 535
     let mut far_programs = 0u64;
     {
@@ -556,7 +641,7 @@ pub fn drive(tier: &str) -> i32 {
         run.capped = true;
     }
     let mut ev = Evidence::new("exploration");
-    ev.set("rule", "base programs (IF > FOR > SELECT and WHILE > DO at module level; SUB Outer -> SUB Inner -> FUNCTION Deep% called from inside blocks; 8 variants: NEXT with / without counter, DO forms, textual order of the subprograms, ordinary / STATIC subprograms) x every injection site (first / inner / last statement of the module, of every block and of every subprogram, single-line IF bodies; call depth 0..3) x 16 fault statements of 7 kinds (syntax, type mismatch, undefined label, argument count, division by zero, subscript out of range, overflow) x layouts (LF / CR LF / CR x blank lines x trailing comments x colon-joined statements x keyword case x indentation). Oracle: the printer's position map (self-checked against the text): stage and kind of the error, row = row of the injected statement, column inside its text (syntax errors: up to two columns after it), and for run-time errors the rows of the active call sites, innermost first. far: the same programs pushed down by 65 535 / 65 536 (thorough also 254, 65 534, 70 001) comment and blank lines and / or pushed right by a string assignment of 256 / 65 536 (thorough also 255, 257, 65 535, 70 001) columns on the line of the injected statement — rows, columns and call-site rows must follow. history: at every site a statement that fails and is trapped (KILL / OPEN of a missing file, LEFT$ with a negative count, a division by zero; ON ERROR GOTO at the top of the module, RESUME NEXT) stands right before the injected run-time fault, followed by ON ERROR GOTO 0: the fault is reported with the same row, column and call-site rows as without that history. unterminated: every base program with one closing line (NEXT, WEND, LOOP, END IF, END SELECT, END SUB, END FUNCTION) removed, under LF / CR LF / CR line ends with and without a final line end: a syntax error whose row and column are the same under the three conventions and lie inside the text or immediately at its end. callsites: a division by zero inside a FUNCTION (directly, or one FUNCTION deeper) called from 27 expression positions (IF / ELSEIF / second ELSEIF / WHILE / DO WHILE / DO UNTIL / LOOP WHILE / LOOP UNTIL conditions, SELECT CASE subject, second CASE test, CASE range / IS / list item, FOR start / limit / step, PRINT item, assignment, argument of a SUB and of a built-in, array subscript, the three parts of a single-line IF, conditions inside loop bodies), each after statements of an earlier branch or body, at module level and inside a SUB, under LF and CR LF: the rows are exactly the failing statement, then the call sites innermost first (the row of the header / statement that holds the call), every column inside its row.");
+    ev.set("rule", "base programs (IF > FOR > SELECT and WHILE > DO at module level; SUB Outer -> SUB Inner -> FUNCTION Deep% called from inside blocks; 8 variants: NEXT with / without counter, DO forms, textual order of the subprograms, ordinary / STATIC subprograms) x every injection site (first / inner / last statement of the module, of every block and of every subprogram, single-line IF bodies; call depth 0..3) x 16 fault statements of 7 kinds (syntax, type mismatch, undefined label, argument count, division by zero, subscript out of range, overflow) x layouts (LF / CR LF / CR x blank lines x trailing comments x colon-joined statements x keyword case x indentation). Oracle: the printer's position map (self-checked against the text): stage and kind of the error, row = row of the injected statement, column inside its text (syntax errors: up to two columns after it), and for run-time errors the rows of the active call sites, innermost first. far: the same programs pushed down by 65 535 / 65 536 (thorough also 254, 65 534, 70 001) comment and blank lines and / or pushed right by a string assignment of 256 / 65 536 (thorough also 255, 257, 65 535, 70 001) columns on the line of the injected statement — rows, columns and call-site rows must follow. history: at every site a statement that fails and is trapped (KILL / OPEN of a missing file, LEFT$ with a negative count, a division by zero; ON ERROR GOTO at the top of the module, RESUME NEXT) stands right before the injected run-time fault, followed by ON ERROR GOTO 0: the fault is reported with the same row, column and call-site rows as without that history. unterminated: every base program with one closing line (NEXT, WEND, LOOP, END IF, END SELECT, END SUB, END FUNCTION) removed, under LF / CR LF / CR line ends with and without a final line end: a syntax error whose row and column are the same under the three conventions and lie inside the text or immediately at its end. callsites: a division by zero inside a FUNCTION (directly, or one FUNCTION deeper) called from 27 expression positions (IF / ELSEIF / second ELSEIF / WHILE / DO WHILE / DO UNTIL / LOOP WHILE / LOOP UNTIL conditions, SELECT CASE subject, second CASE test, CASE range / IS / list item, FOR start / limit / step, PRINT item, assignment, argument of a SUB and of a built-in, array subscript, the three parts of a single-line IF, conditions inside loop bodies), each after statements of an earlier branch or body, at module level and inside a SUB, under LF and CR LF: the rows are exactly the failing statement, then the call sites innermost first (the row of the header / statement that holds the call), every column inside its row. deep: a recursion of 1 .. 300 (thorough 1000) activations around the powers of two and 100 (one SUB; a SUB and a FUNCTION alternating) that fails at the bottom: the rows are the failing statement, every call site innermost first, and the call in the main module last.");
     ev.set("exhaustive", !run.capped);
     ev.set("plan", json!({"variants": variants, "sites": sites, "faults": FAULTS.len(), "layouts": nl, "programs": total, "far_programs": far_programs, "callsite_programs": 2 * callsite_programs().len()}));
     ev.set("distinct_nontrivial", run.nontrivial);
